@@ -272,59 +272,83 @@ def stage_slots(ctx: Ctx):
                 ctx.violation('sub-struct|slots', 'single-node / slice slots of one template were not filled each in its own mode', {**rec, 'after': root.src, 'diffs': d})
 
 
+LHDR = ('From Coq Require Import List Bool Arith ZArith.\nFrom PF Require Import models.SubLoop.\nImport ListNotations.\nLocal Open Scope Z_scope.\n'
+        'Definition res_eqb (a b : Z * nat) : bool := Z.eqb (fst a) (fst b) && Nat.eqb (snd a) (snd b).\n')
+
+
 def stage_loop(ctx: Ctx):
-    """loop=N: per location at most N successive substitutions while the node still matches; the counter is per location"""
+    """count / loop / callback: per location at most `loop` successive substitutions while the node still matches, the allowance is per location, a callback can
+    decline any round, `count` limits the substituted locations; result structure vs successive substitutions, reported counts vs the substitutions performed
+    and vs models/SubLoop.v subn_counts"""
     import fst
     from fst.match import M, MList, MQSTAR
     rng = ctx.rng
     names = list('abcdefghpqrstuvwxyz')
-    for it in range(ctx.scale(60, 600)):
+    terms, meta = [], []
+    for it in range(ctx.scale(120, 1500)):
         lists = [[rng.choice(names) + str(k) for k in range(rng.randrange(0, 7))] for _ in range(rng.randrange(1, 5))]
         src = '(' + ', '.join('[' + ', '.join(l) + ']' for l in lists) + ',)'
-        loop = rng.choice([1, 2, 3, 5, True, 0])
+        loop = rng.choice([1, 2, 3, 5, True, 0, False])
+        count = rng.choice([0, 0, 1, 2, 3])
         back = rng.random() < 0.3
         root = fst.FST(src, 'exec')
         pat = MList(elts=[M(first=...), M(second=...), MQSTAR(rest=...)])
         # a callback that declines some rounds (by global call number): a declined round ends the rounds at that location only
-        skip_at = set(rng.sample(range(1, 12), rng.randrange(0, 4))) if rng.random() < 0.5 and not back else set()
+        skip_at = set(rng.sample(range(1, 12), rng.randrange(0, 4))) if rng.random() < 0.5 else set()
         calls = [0]
 
         def cb(m, calls=calls, skip_at=skip_at):
             calls[0] += 1
             return calls[0] in skip_at
+        rec = {'src': src, 'loop': loop, 'count': count, 'back': back, 'callback_declines_calls': sorted(skip_at)}
         try:
-            _, n_unique, n_total = root.subn(pat, '[__FST_first + __FST_second, __FST_rest]', loop=loop, back=back, **({'callback': cb} if skip_at else {}))
+            _, n_unique, n_total = root.subn(pat, '[__FST_first + __FST_second, __FST_rest]', loop=loop, count=count, back=back, **({'callback': cb} if skip_at else {}))
         except Exception as e:
-            ctx.violation(f'sub-raise|loop|{type(e).__name__}', 'sub(loop=N) raised', {'src': src, 'loop': loop, 'error': repr(e)[:300]})
+            ctx.violation(f'sub-raise|loop|{type(e).__name__}', 'sub(loop=N) raised', {**rec, 'error': repr(e)[:300]})
             continue
-        ctx.tick(('loop', src, loop, back), 'sub:loop')
-        lim = 10 ** 9 if loop is True or loop == 0 else loop
-        exp_lists, total, unique = [], 0, 0
-        ncall = 0
-        for l in lists:
-            steps = min(lim, max(0, len(l) - 1))
-            if skip_at and len(l) >= 2:
-                done = 0
-                while done < steps:
+        ctx.tick(('loop', src, loop, count, back, tuple(sorted(skip_at))), 'sub:loop')
+        # reference: successive substitutions location by location
+        order = list(range(len(lists)))[::-1] if back else list(range(len(lists)))
+        steps_of, cnt, ncall, stop = {}, count, 0, False
+        for idx in order:
+            l = lists[idx]
+            if len(l) < 2 or stop:
+                steps_of[idx] = 0
+                continue
+            done, z = 0, (None if loop is False else 0 if loop is True else loop)
+            while True:
+                if skip_at:
                     ncall += 1
                     if ncall in skip_at:
                         break
-                    done += 1
-                else:
-                    if done < max(0, len(l) - 1) and done == lim:
-                        pass          # the allowance ended the rounds: no further callback
-                    elif done == len(l) - 1:
-                        pass          # nothing left to match: no further callback
-                steps = done
-            total += steps
-            unique += steps > 0
-            exp_lists.append(([' + '.join(l[:steps + 1])] + l[steps + 1:]) if steps else l)
+                done += 1
+                if z is None:
+                    break
+                z -= 1
+                if z == 0 or done >= len(l) - 1:
+                    break
+            steps_of[idx] = done
+            if done:
+                cnt -= 1
+                stop = cnt == 0
+        total = sum(steps_of.values())
+        unique = sum(1 for v in steps_of.values() if v)
+        exp_lists = [([' + '.join(l[:steps_of[i] + 1])] + l[steps_of[i] + 1:]) if steps_of[i] else l for i, l in enumerate(lists)]
         want_src = '(' + ', '.join('[' + ', '.join(l) + ']' for l in exp_lists) + ',)'
         d = cmp_ast(root.a, ast.parse(want_src), positions=False) or reparse_diffs(root)
         if d:
-            ctx.violation('sub-struct|loop', 'sub(loop=N) result differs from N successive substitutions per location', {'src': src, 'loop': loop, 'back': back, 'callback_declines_calls': sorted(skip_at), 'after': root.src, 'expected': want_src, 'diffs': d})
-        elif (n_unique, n_total) != (unique, total):
-            ctx.violation('sub-count|loop', 'sub(loop=N) counts differ from the substitutions performed', {'src': src, 'loop': loop, 'callback_declines_calls': sorted(skip_at), 'reported': [n_unique, n_total], 'expected': [unique, total]})
+            ctx.violation('sub-struct|loop', 'sub(loop=N) result differs from N successive substitutions per location', {**rec, 'after': root.src, 'expected': want_src, 'diffs': d})
+            continue
+        if (n_unique, n_total) != (unique, total):
+            ctx.violation('sub-count|loop', 'sub(loop=N) counts differ from the substitutions performed', {**rec, 'reported': [n_unique, n_total], 'expected': [unique, total]})
+            continue
+        locs = [len(lists[i]) - 1 for i in order if len(lists[i]) >= 2]
+        l0 = 'None' if loop is False else f'(Some {0 if loop is True else loop})'
+        cbs = '[' + '; '.join(cbool(k in skip_at) for k in range(1, (max(skip_at) if skip_at else 0) + 1)) + ']'
+        terms.append(f'res_eqb (subn_counts [{"; ".join(map(str, locs))}]%nat {l0} {count} {cbs}) ({n_unique}, {n_total}%nat)')
+        meta.append({**rec, 'locations': locs, 'real_counts': [n_unique, n_total]})
+    failed = coq_eval_bools('C18_loop', LHDR, terms, shard=1000)
+    ctx.correspondence('models/SubLoop.v subn_counts == counts reported by FST.subn (count x loop x declining callbacks x back, list-merging family)', len(terms), [meta[k] for k in failed])
 
 
 # ---- correspondence with models/Subst.v -----------------------------------------------------------------------------
